@@ -1,5 +1,6 @@
 """C01 — transactions read from a stable snapshot (E2 engine, reader-heavy profiles)."""
 from . import e2gen as G
+from . import ck as CK
 
 MODEL_TARGETS = ["theories/Spec/Machine.vo"]
 TRUSTED = ["snapshot = number of commits completed at begin (scripts are sequential; the interleaving part of C01 is the "
@@ -46,6 +47,9 @@ def explore(ctx):
     r["coverage"]["rule"] = ("multi-transaction histories with up to 7 overlapping readers/writers (readers sharing a horizon, readers that "
                              "open cursors), rotate/flush/compaction of every level placed between reader operations, level count 1-4; "
                              "non-trivial = a reader older than a later commit reads after a flush/compaction; distinct by program text")
+    r = CK.merge(r, CK.explore(ctx, "C01"))
+    r["coverage"]["rule"] += ("; plus compaction-iterator cases: all version lists of one key up to length 3 (4 in thorough) x snapshot "
+                              "subsets x bottom x versioning, and random multi-key multi-run cases, each checked against compact_key_view and against Lsm/CompactKey.v")
     return r
 
 
